@@ -86,6 +86,29 @@ CLAIMS = {
          "the real verifiers on thousands of concrete certificates, every single-byte mutation of valid ones, and by adversary endpoints on the fabric. Partial: cryptography "
          "is assumed, not proved.",
          "ring / rustls / webpki / x509-parser soundness assumed."),
+ "C02": ("Coq theorems about one-RPC-per-stream connections (Rpc.v: caller and server processes over FIFO byte pipes, any chunking, any interleaving, any handler completion "
+         "order, any number of streams carrying anything): the handler is invoked at most once per stream, on a stream carrying the encoding of a well-formed request the "
+         "handler sees exactly that request and the caller gets exactly the response produced for it (through C07's round trip and prefix-rejection theorems), a step of one "
+         "stream leaves every other unchanged; tied by fabric runs with up to 128 concurrent RPCs in both directions under delay, reordering, duplication and loss, every "
+         "result and both servers' request logs checked. Partial: QUIC reliability and ordering are quinn's (model component).",
+         "quinn's stream reliability under datagram faults is assumed and exercised."),
+ "C06": ("Coq theorems: whatever bytes a stream carries the server keeps reading, starts the handler with a request that really decodes from them, or fails that stream only; "
+         "hostile streams change only themselves and honest RPCs on the same connection keep their pairing; the manager leaves its loop only on shutdown; tied by an "
+         "adversary endpoint with a valid identity performing random / truncated / mutated / oversized requests and every stream-level misbehaviour, unidirectional streams, "
+         "datagrams and abrupt closes while honest peers run RPCs (panic hook, liveness and correctness monitors). Partial: Rust panic-freedom is exercised, not proved.",
+         "panic-freedom of the transcribed Rust functions is exercised only."),
+ "C12": ("Coq theorems on Rpc.v extended with abandonment (reset of the send half, stop of the receive half, possible in every caller state): once noticed, the handler is "
+         "dropped and none ever starts, closed streams are absorbing, every abandoned open stream has an enabled closing step, at server quiescence every abandoned stream is "
+         "closed (no credit leak), siblings are untouched; tied by fabric runs abandoning 3-8x the concurrent-stream limit of calls at instants sweeping the whole exchange, "
+         "with handler start/drop counters, live siblings and fresh RPCs afterwards. Partial: QUIC stream-state and credit accounting are quinn's.",
+         "quinn stream credit accounting is a validated model component."),
+ "C08": ("Coq theorems on a transition system of the manager loop, handlers, API calls and shutdown(): the shutdown sequence never gets stuck and takes at most meas(s) steps, "
+         "the active-peer set is empty when the cleanup is reached, afterwards no peers / handlers / handshakes remain and every API call ever issued has been answered, late "
+         "calls fail at once, at most one shutdown request is accepted, and no schedule - including task cancellation by runtime teardown at any moment - leads to a panic "
+         "(true of the repaired code: two teardown defects were found, reproduced on the pinned tree and fixed by fix: commits); tied by fabric runs shutting a network down "
+         "(explicitly, twice concurrently, or by dropping the last handle) with RPCs, dials and API calls in flight, and by real-time runtime-teardown runs on a multi-thread "
+         "runtime under a watchdog. Partial: tokio's scheduling and runtime-drop behaviour are the runtime's.",
+         "user handlers are assumed cancellable and panic-free; tokio runtime behaviour is trusted."),
 }
 
 def main():
